@@ -101,7 +101,7 @@ DictItems ==
 Dicts == {[kind |-> "dict", name |-> <<100>>, items |-> its] : its \in DictItems}
 
 IPs == {<<49, 48, 46, 48, 46, 48, 46, 48>>, <<50, 48, 48, 49, 58, 100, 98, 56, 58, 58, 49>>}     \* 10.0.0.0  2001:db8::1
-Entries == {[ip |-> ip, negated |-> ng, subnet |-> sn, comment |-> <<>>] : ip \in IPs, ng \in BOOLEAN, sn \in {-1, 8, 128}}
+Entries == {[ip |-> ip, negated |-> ng, subnet |-> sn, comment |-> <<>>] : ip \in IPs, ng \in BOOLEAN, sn \in {-1, 0, 8, 128}}
            \cup {[ip |-> IPs_, negated |-> FALSE, subnet |-> 8, comment |-> c] : IPs_ \in {<<49, 48, 46, 48, 46, 48, 46, 48>>}, c \in Texts \ {<<>>}}
 Acls == {[kind |-> "acl", name |-> <<97>>, entries |-> es] :
            es \in {<<>>} \cup {<<e>> : e \in Entries}
@@ -185,6 +185,8 @@ Faithful(c) ==
          \* membership: every reference names the declaration generated for that backend
          /\ \A i \in 1..Len(c.members) : r.refs[i] = ReadBackend([kind |-> "backend", name |-> c.members[i], address |-> <<104>>]).declared
 
+(* Resources do not come alone: the harness puts a second dictionary / ACL ("decoy", fixed contents) next to *)
+(* the generated one on both routes; items and entries must stay with the resource they belong to.       *)
 VARIABLE case
 Init == case \in Cases
 Next == UNCHANGED case
